@@ -62,11 +62,13 @@ def upgrade():
         )
 
     elif op.get_bind().dialect.name == "sqlite":
+        # datetime() drops fractional seconds, so append them again. Jobs of one parent are
+        # ordered by start_time, which needs the sub-second part.
         op.execute(
             """
             update job set
-              start_time = datetime(start_time, 'utc'),
-              end_time = datetime(end_time, 'utc');
+              start_time = datetime(start_time, 'utc') || substr(start_time, 20),
+              end_time = datetime(end_time, 'utc') || substr(end_time, 20);
             """
         )
 
